@@ -53,7 +53,7 @@ def generate(rng, cfg: Dict) -> Dict:
         else:
             src = ["graph"]
         consume = c.weighted([("drain", 5), ("take", 2), ("build_only", 1)])
-        cond = c.weighted([(False, 4), (True, 3), ("IsListed", 1.5), ("IsAudited", 1.5)])
+        cond = c.weighted([(False, 4), (True, 3), ("IsListed", 1.5), ("IsAudited", 1.5), ("collection_eq", 1.5)])
         body.append(["query", q, cls, src, cond, consume, c.int(0, 2), c.chance(0.6)])
     if c.chance(0.3):
         body.insert(c.int(0, len(body)), [c.pick(["gc", "sweep"])])
@@ -176,7 +176,12 @@ def _do_query(world, op, cycle, program_refs, log, counters) -> bool:
         domain = members if src[0] == "list" else (m for m in members)
         explicit = True
     var = let(cls, domain)
-    if with_cond in oworld.PREDICATES:
+    collection_field = {"Human": "member_of", "Org": "members", "Envoy": "affiliated"}.get(cls_name)
+    if with_cond == "collection_eq" and collection_field:
+        other = let(cls, domain if not explicit or src[0] == "list" else None)
+        query = an(entity(var, getattr(var, collection_field) == getattr(other, collection_field)))
+        counters.inc("op.query.collection_eq")
+    elif with_cond in oworld.PREDICATES:
         query = an(entity(var, oworld.PREDICATES[with_cond](x=var)))
         counters.inc("op.query.predicate")
     else:
